@@ -77,22 +77,23 @@ Theorem v2_deref_dispatch_adequate : dispatch_adequate (v2_deref_dispatch true) 
 Proof. vm_compute. reflexivity. Qed.
 Print Assumptions v2_deref_dispatch_adequate.
 
-Definition chains : list (N -> bool -> idec) := [v1_index_dispatch true; v2_cat_dispatch true; v2_deref_dispatch true].
+Definition chains : list (N -> bool -> bool -> idec) := [v1_index_dispatch true; v2_cat_dispatch true; v2_deref_dispatch true].
 
 Lemma chains_adequate f : In f chains -> dispatch_adequate f = true.
 Proof.
   intros [<-|[<-|[<-|[]]]]; [apply v1_index_dispatch_adequate | apply v2_cat_dispatch_adequate | apply v2_deref_dispatch_adequate].
 Qed.
 
-(* every page reader, every width 0..32, foreign or self-made: the leaf that is reached decodes what can arrive there *)
-Theorem index_decoders_correct : forall f w selfmade, In f chains -> w <= 32 ->
-  match f w selfmade with
+(* every page reader, every width 0..32, foreign or self-made, one bit-packed run or any other run structure: the leaf
+   that is reached decodes what can arrive there *)
+Theorem index_decoders_correct : forall f w selfmade one_run, In f chains -> w <= 32 ->
+  match f w selfmade one_run with
   | DFast =>
-      selfmade = true /\ own_width w = true /\
+      selfmade = true /\ own_width w = true /\ one_run = true /\
       forall k h vals, w = 8 * N.of_nat k -> h < 2 ^ 64 -> Forall (fun v => v < 256 ^ N.of_nat k) vals ->
         fast_read w (uleb_enc h ++ fixed_enc k vals) (N.of_nat (length vals)) = Some vals
   | DGeneric a isz =>
-      (selfmade = true -> own_width w = false) /\ 0 < w <= 8 * isz /\
+      takes_view w selfmade one_run = false /\ 0 < w <= 8 * isz /\
       forall n rs, Forall (irun_ok w isz) rs -> rs <> [] ->
         exists r, c_read_hybrid (hyb_enc w rs) w (lenN (hyb_enc w rs)) (n * a) isz = Ok r /\
                   d_vals r = map (tr isz) (firstn (N.to_nat (N.min (lenN (allvals rs)) n)) (allvals rs)) /\
@@ -102,38 +103,60 @@ Theorem index_decoders_correct : forall f w selfmade, In f chains -> w <= 32 ->
   | DNone => False
   end.
 Proof.
-  intros f w sm Hf Hw.
-  pose proof (dispatch_adequate_spec f (chains_adequate f Hf) w sm Hw) as Had.
-  pose proof (adequate_facts w sm (f w sm) Had) as F.
-  destruct (f w sm) as [|a isz| |] eqn:E.
-  - destruct F as [F1 F2]. repeat split; try assumption.
+  intros f w sm one Hf Hw.
+  pose proof (dispatch_adequate_spec f (chains_adequate f Hf) w sm one Hw) as Had.
+  pose proof (adequate_facts w sm one (f w sm one) Had) as F.
+  destruct (f w sm one) as [|a isz| |] eqn:E.
+  - destruct F as [F1 [F2 F3]]. repeat split; try assumption.
     intros k h vals -> Hh Hv.
     assert (Hk : (k = 1 \/ k = 2 \/ k = 4)%nat).
     { unfold own_width in F2. apply orb_prop in F2. destruct F2 as [F2|F2]; [apply orb_prop in F2; destruct F2 as [F2|F2]|];
         apply N.eqb_eq in F2; lia. }
     apply fast_leaf_correct; assumption.
   - destruct F as [-> [Hisz [Hwr Hown]]]. repeat split; try assumption; try (apply Hwr).
-    intros n rs Hrs Hne. apply (generic_leaf_correct w sm isz isz n rs Had Hrs Hne).
+    intros n rs Hrs Hne. apply (generic_leaf_correct w sm one isz isz n rs Had Hrs Hne).
   - exact F.
   - exact F.
 Qed.
 Print Assumptions index_decoders_correct.
 
-(* a self-made page of whole bytes never reaches the generic decoder (whose bit-packed region ends at width 24 and
-   which walks through whole groups of 8 values: fastparquet's own run is not padded) *)
-Theorem own_pages_take_the_view : forall f w, In f chains -> own_width w = true -> f w true = DFast.
+(* a self-made page of whole bytes in ONE bit-packed run (what encode_dict writes: unpadded, up to 32 bits) never reaches the
+   generic decoder; any other run structure never takes the view, whatever created_by says *)
+Theorem own_pages_take_the_view : forall f w, In f chains -> own_width w = true ->
+  f w true true = DFast /\ f w true false <> DFast /\ f w false true <> DFast.
 Proof.
   intros f w Hf Ho.
   assert (Hw : w <= 32).
   { unfold own_width in Ho. apply orb_prop in Ho. destruct Ho as [Ho|Ho]; [apply orb_prop in Ho; destruct Ho as [Ho|Ho]|];
       apply N.eqb_eq in Ho; lia. }
-  pose proof (dispatch_adequate_spec f (chains_adequate f Hf) w true Hw) as Had.
-  pose proof (adequate_facts w true (f w true) Had) as F.
-  destruct (f w true) as [|a isz| |]; [reflexivity| | |contradiction].
-  - destruct F as [_ [_ [_ Hn]]]. rewrite (Hn eq_refl) in Ho. discriminate.
-  - subst w. discriminate.
+  pose proof (fun sm one => adequate_facts w sm one (f w sm one) (dispatch_adequate_spec f (chains_adequate f Hf) w sm one Hw)) as F.
+  repeat split.
+  - specialize (F true true). destruct (f w true true) as [|a isz| |]; [reflexivity| | |contradiction].
+    + destruct F as [_ [_ [_ Hn]]]. unfold takes_view in Hn. rewrite Ho in Hn. discriminate.
+    + subst w. discriminate.
+  - specialize (F true false). intros E. rewrite E in F. destruct F as [_ [_ F]]. discriminate.
+  - specialize (F false true). intros E. rewrite E in F. destruct F as [F _]. discriminate.
 Qed.
 Print Assumptions own_pages_take_the_view.
+
+(* core._is_one_bitpacked_run says `one run` exactly when the header is a bit-packed run header (odd) whose groups hold at least
+   the page's values - only then are the nval whole-byte indices the little-endian integers right behind the header *)
+Theorem one_run_check_spec : forall header nval,
+  one_run_check header nval = true <-> (header mod 2 = 1 /\ nval <= 8 * (header / 2)).
+Proof.
+  intros header nval. unfold one_run_check.
+  rewrite ?N.shiftr_div_pow2. change (2 ^ 1) with 2.
+  assert (L : N.land header 1 = header mod 2) by (change 1 with (N.ones 1); rewrite N.land_ones; reflexivity).
+  rewrite ?L.
+  pose proof (N.mod_upper_bound header 2 ltac:(lia)) as Hm.
+  (* whatever way the source spells the two comparisons *)
+  repeat match goal with
+  | |- context [?a =? ?b] => destruct (N.eqb_spec a b)
+  | |- context [?a <=? ?b] => destruct (N.leb_spec a b)
+  | |- context [?a <? ?b] => destruct (N.ltb_spec a b)
+  end; cbn [negb andb orb]; split; intros Hx; try discriminate; try (destruct Hx); try split; try lia; try reflexivity.
+Qed.
+Print Assumptions one_run_check_spec.
 
 (* ---- 3. DELTA_BINARY_PACKED: the allocation's item size is the one the decoder is told ------------------------ *)
 Theorem v1_delta_alloc_consistent : forall t,
@@ -142,7 +165,8 @@ Proof. intros t. unfold v1_delta_alloc. cbn [fst snd]. destruct (t =? 2); reflex
 Print Assumptions v1_delta_alloc_consistent.
 
 Example dispatch_nonvacuous :
-  v1_index_dispatch true 32 true = DFast /\ v2_cat_dispatch true 32 true = DFast /\ v2_deref_dispatch true 32 true = DFast /\
-  v1_index_dispatch true 9 false = DGeneric 4 4 /\ v2_cat_dispatch true 8 false = DGeneric 1 1 /\
+  v1_index_dispatch true 32 true true = DFast /\ v2_cat_dispatch true 32 true true = DFast /\ v2_deref_dispatch true 32 true true = DFast /\
+  v1_index_dispatch true 9 false false = DGeneric 4 4 /\ v2_cat_dispatch true 8 false true = DGeneric 1 1 /\
+  v2_deref_dispatch true 16 true false = DGeneric 4 4 /\
   read_plain_dispatch 6 5 0 100 false false = PUnpack 5 false /\ read_plain_dispatch 3 5 0 100 false false = PFixed 12 5.
 Proof. repeat split; vm_compute; reflexivity. Qed.
